@@ -250,3 +250,173 @@ Proof.
     exists T. cbn [teval zeval]. rewrite Ev, Hc.
     rewrite wrap_small by (eapply in_type_fits; [exact Ei | lia]). repeat split; lia.
 Qed.
+
+(* ================================================================================================================
+   Round 5 (added; nothing above is changed): expressions of ONE array variable in the unwrap direction.
+
+     - a >> k, k a Python int : keeps the type of a; arithmetic shift (floor) for signed types (UShr)
+     - a & m,  m a Python int : keeps the type of a (NumPy 2 weak scalar); a literal that does not fit raises
+                                OverflowError (UAndLit)
+     - a + c, a // c, a % c   : keep the type of a and wrap; floor division / Python modulo (UAddLit, UDivLit, UModLit)
+     - field assignment / astype(T): C cast, wraps (UCast) -- this is what `rec.field = expr` does for a record
+                                field of storage type T ('i4' = I32)
+   ueval evaluates on a (storage type, value) pair, uzeval is the erasure over Z, ucheck a verified range analysis:
+   if it accepts an expression for a variable of type t with values in [lo, hi], then for every such value the
+   fixed-width evaluation is the unbounded one, of the reported type, inside the reported interval.           *)
+
+Inductive uexpr :=
+| UVar
+| UShr (e : uexpr) (k : Z)
+| UAndLit (e : uexpr) (m : Z)
+| UAddLit (e : uexpr) (c : Z)
+| UDivLit (e : uexpr) (c : Z)
+| UModLit (e : uexpr) (c : Z)
+| UCast (t : ity) (e : uexpr).
+
+Fixpoint ueval (v : ity * Z) (e : uexpr) : tres :=
+  match e with
+  | UVar => TVal (fst v) (snd v)
+  | UShr e k => match ueval v e with TVal t z => TVal t (wrap t (Z.shiftr z k)) | r => r end
+  | UAndLit e m => match ueval v e with
+                   | TVal t z => if fits t m then TVal t (wrap t (Z.land z m)) else TOverflow
+                   | r => r end
+  | UAddLit e c => match ueval v e with
+                   | TVal t z => if fits t c then TVal t (wrap t (z + c)) else TOverflow
+                   | r => r end
+  | UDivLit e c => match ueval v e with
+                   | TVal t z => if fits t c then TVal t (wrap t (z / c)) else TOverflow
+                   | r => r end
+  | UModLit e c => match ueval v e with
+                   | TVal t z => if fits t c then TVal t (wrap t (z mod c)) else TOverflow
+                   | r => r end
+  | UCast t e => match ueval v e with TVal _ z => TVal t (wrap t z) | r => r end
+  end.
+
+Fixpoint uzeval (z : Z) (e : uexpr) : Z :=
+  match e with
+  | UVar => z
+  | UShr e k => Z.shiftr (uzeval z e) k
+  | UAndLit e m => Z.land (uzeval z e) m
+  | UAddLit e c => uzeval z e + c
+  | UDivLit e c => uzeval z e / c
+  | UModLit e c => uzeval z e mod c
+  | UCast _ e => uzeval z e
+  end.
+
+(* is m of the form 2^k - 1 with k >= 0 ?  (the masks of the ID code) *)
+Definition mask_width (m : Z) : option Z :=
+  let k := Z.log2 (m + 1) in if (0 <=? m) && (m =? 2 ^ k - 1) then Some k else None.
+
+Fixpoint ucheck (t : ity) (lo hi : Z) (e : uexpr) : option (ity * Z * Z) :=
+  match e with
+  | UVar => if in_type t lo hi then Some (t, lo, hi) else None
+  | UShr e k =>
+      match ucheck t lo hi e with
+      | Some (T, l, h) =>
+          if (0 <=? k) && in_type T (l / 2 ^ k) (h / 2 ^ k) then Some (T, l / 2 ^ k, h / 2 ^ k) else None
+      | None => None
+      end
+  | UAndLit e m =>
+      match ucheck t lo hi e, mask_width m with
+      | Some (T, _, _), Some _ => if fits T m then Some (T, 0, m) else None
+      | _, _ => None
+      end
+  | UAddLit e c =>
+      match ucheck t lo hi e with
+      | Some (T, l, h) => if fits T c && in_type T (l + c) (h + c) then Some (T, l + c, h + c) else None
+      | None => None
+      end
+  | UDivLit e c =>
+      match ucheck t lo hi e with
+      | Some (T, l, h) =>
+          if (0 <? c) && fits T c && in_type T (l / c) (h / c) then Some (T, l / c, h / c) else None
+      | None => None
+      end
+  | UModLit e c =>
+      match ucheck t lo hi e with
+      | Some (T, l, h) => if (0 <? c) && fits T c then Some (T, 0, c - 1) else None
+      | None => None
+      end
+  | UCast T' e =>
+      match ucheck t lo hi e with
+      | Some (_, l, h) => if in_type T' l h then Some (T', l, h) else None
+      | None => None
+      end
+  end.
+
+Lemma mask_width_ok m k : mask_width m = Some k -> 0 <= k /\ m = 2 ^ k - 1.
+Proof.
+  unfold mask_width. destruct ((0 <=? m) && (m =? 2 ^ Z.log2 (m + 1) - 1)) eqn:E; [|discriminate].
+  intros H. inversion H; subst k. apply andb_prop in E. destruct E as [_ E2]. apply Z.eqb_eq in E2.
+  split; [apply Z.log2_nonneg | exact E2].
+Qed.
+
+Lemma land_mask_bounds z k : 0 <= k -> 0 <= Z.land z (2 ^ k - 1) <= 2 ^ k - 1.
+Proof.
+  intros Hk. replace (2 ^ k - 1) with (Z.ones k) by (rewrite Z.ones_equiv; lia).
+  rewrite Z.land_ones by exact Hk.
+  pose proof (Z.mod_pos_bound z (2 ^ k) ltac:(apply Z.pow_pos_nonneg; lia)). rewrite Z.ones_equiv. lia.
+Qed.
+
+Lemma fits_in_type t z : fits t z = true -> in_type t z z = true.
+Proof. unfold fits, in_type. auto. Qed.
+
+Theorem ucheck_sound t lo hi e : forall T l h, ucheck t lo hi e = Some (T, l, h) ->
+  forall z, fits t z = true -> lo <= z <= hi ->
+  ueval (t, z) e = TVal T (uzeval z e) /\ l <= uzeval z e <= h /\ in_type T l h = true.
+Proof.
+  induction e as [ | e IH k | e IH m | e IH c | e IH c | e IH c | T' e IH]; intros T l h H z Fz Rz; cbn [ucheck] in H.
+  - destruct (in_type t lo hi) eqn:Ei; [|discriminate H]. inversion H; subst T l h.
+    cbn [ueval uzeval fst snd]. auto.
+  - destruct (ucheck t lo hi e) as [[[T0 l0] h0]|] eqn:Ec; [|discriminate H].
+    destruct ((0 <=? k) && in_type T0 (l0 / 2 ^ k) (h0 / 2 ^ k)) eqn:Ei; [|discriminate H].
+    inversion H; subst T l h. apply andb_prop in Ei. destruct Ei as [Hk Ei]. apply Z.leb_le in Hk.
+    destruct (IH _ _ _ eq_refl z Fz Rz) as (Ev & Hr & _).
+    cbn [ueval uzeval]. rewrite Ev. rewrite Z.shiftr_div_pow2 by exact Hk.
+    assert (P : 0 < 2 ^ k) by (apply Z.pow_pos_nonneg; lia).
+    assert (R : l0 / 2 ^ k <= uzeval z e / 2 ^ k <= h0 / 2 ^ k)
+      by (split; apply Z.div_le_mono; lia).
+    rewrite wrap_small by (eapply in_type_fits; eauto). auto.
+  - destruct (ucheck t lo hi e) as [[[T0 l0] h0]|] eqn:Ec; [|discriminate H].
+    destruct (mask_width m) as [k|] eqn:Em; [|discriminate H].
+    destruct (fits T0 m) eqn:Ef; [|discriminate H]. inversion H; subst T l h.
+    destruct (mask_width_ok _ _ Em) as [Hk Hm].
+    destruct (IH _ _ _ eq_refl z Fz Rz) as (Ev & _ & It).
+    cbn [ueval uzeval]. rewrite Ev, Ef.
+    pose proof (land_mask_bounds (uzeval z e) k Hk) as B. rewrite <- Hm in B.
+    assert (I0 : in_type T0 0 m = true).
+    { unfold in_type. apply andb_true_intro. unfold fits in Ef. apply andb_prop in Ef. destruct Ef as [_ E2].
+      split; [|exact E2]. apply Z.leb_le. unfold tmin. destruct (signed T0); [|lia].
+      assert (0 < 2 ^ (bits T0 - 1)) by (apply Z.pow_pos_nonneg; destruct T0; cbn; lia). lia. }
+    rewrite wrap_small by (eapply in_type_fits; eauto). auto.
+  - destruct (ucheck t lo hi e) as [[[T0 l0] h0]|] eqn:Ec; [|discriminate H].
+    destruct (fits T0 c && in_type T0 (l0 + c) (h0 + c)) eqn:Ei; [|discriminate H].
+    inversion H; subst T l h. apply andb_prop in Ei. destruct Ei as [Hc Ei].
+    destruct (IH _ _ _ eq_refl z Fz Rz) as (Ev & Hr & _).
+    cbn [ueval uzeval]. rewrite Ev, Hc.
+    rewrite wrap_small by (eapply in_type_fits; [exact Ei | lia]). repeat split; try lia. exact Ei.
+  - destruct (ucheck t lo hi e) as [[[T0 l0] h0]|] eqn:Ec; [|discriminate H].
+    destruct ((0 <? c) && fits T0 c && in_type T0 (l0 / c) (h0 / c)) eqn:Ei; [|discriminate H].
+    inversion H; subst T l h. apply andb_prop in Ei. destruct Ei as [Ei Ei3]. apply andb_prop in Ei.
+    destruct Ei as [Hc Hf]. apply Z.ltb_lt in Hc.
+    destruct (IH _ _ _ eq_refl z Fz Rz) as (Ev & Hr & _).
+    cbn [ueval uzeval]. rewrite Ev, Hf.
+    assert (R : l0 / c <= uzeval z e / c <= h0 / c) by (split; apply Z.div_le_mono; lia).
+    rewrite wrap_small by (eapply in_type_fits; eauto). auto.
+  - destruct (ucheck t lo hi e) as [[[T0 l0] h0]|] eqn:Ec; [|discriminate H].
+    destruct ((0 <? c) && fits T0 c) eqn:Ei; [|discriminate H].
+    inversion H; subst T l h. apply andb_prop in Ei. destruct Ei as [Hc Hf]. apply Z.ltb_lt in Hc.
+    destruct (IH _ _ _ eq_refl z Fz Rz) as (Ev & _ & _).
+    cbn [ueval uzeval]. rewrite Ev, Hf.
+    pose proof (Z.mod_pos_bound (uzeval z e) c Hc) as B.
+    assert (I0 : in_type T0 0 (c - 1) = true).
+    { unfold in_type. apply andb_true_intro. unfold fits in Hf. apply andb_prop in Hf. destruct Hf as [_ E2].
+      apply Z.leb_le in E2. split; [|apply Z.leb_le; lia]. apply Z.leb_le. unfold tmin. destruct (signed T0); [|lia].
+      assert (0 < 2 ^ (bits T0 - 1)) by (apply Z.pow_pos_nonneg; destruct T0; cbn; lia). lia. }
+    rewrite wrap_small by (eapply in_type_fits; [exact I0 | lia]). repeat split; try lia. exact I0.
+  - destruct (ucheck t lo hi e) as [[[T0 l0] h0]|] eqn:Ec; [|discriminate H].
+    destruct (in_type T' l0 h0) eqn:Ei; [|discriminate H]. inversion H; subst T l h.
+    destruct (IH _ _ _ eq_refl z Fz Rz) as (Ev & Hr & _).
+    cbn [ueval uzeval]. rewrite Ev.
+    rewrite wrap_small by (eapply in_type_fits; eauto). auto.
+Qed.
